@@ -284,15 +284,13 @@ def check_basis_rows(ctx, site, p, xi, a, b, rows, detail, expect_kronecker=None
             ctx.mon(f"{mon_prefix}.zero_sum_derivative")
             if abs(row.sum()) > tol_sum:
                 ctx.violation(site, "basis function derivatives do not sum to zero", det); ok = False
-        if n <= 1:
-            ctx.mon(f"{mon_prefix}.reference")
-            if np.max(np.abs(row - ref)) > tol:
-                ctx.violation(site, "basis values differ from the Lagrange polynomials through the equally spaced element nodes"
-                              if n == 0 else "basis derivatives differ from the derivatives of the Lagrange polynomials", det)
-                ok = False
-        elif np.max(np.abs(row - ref)) > tol:
-            # derivatives of order >= 2: the property only asks for the zero sum; value mismatch is recorded, not judged
-            ctx.count("info:derivative_order>=2_differs_from_exact_derivative(not judged)")
+        # (every returned order is judged against the exact derivative of the Lagrange polynomials: a 'zero-sum derivative' that is
+        #  not the derivative is not what the clause means; orders >= 2 were off by h^(n-1) on the pinned tree - fixed in /repo)
+        ctx.mon(f"{mon_prefix}.reference")
+        if np.max(np.abs(row - ref)) > tol:
+            ctx.violation(site, "basis values differ from the Lagrange polynomials through the equally spaced element nodes"
+                          if n == 0 else "basis derivatives differ from the derivatives of the Lagrange polynomials", det)
+            ok = False
     if expect_kronecker is not None:
         ctx.mon(f"{mon_prefix}.kronecker")
         e = np.zeros(p + 1); e[expect_kronecker] = 1.0
